@@ -35,6 +35,20 @@ Mk(e, prop, clauses) ==
 Success(rc) == RcClass(rc) = "success"
 SeqSet(s) == {s[i] : i \in DOMAIN s}
 
+\* F17: a step definition moves from one plan to another in a single edit.  The new definer runs
+\* while the old definer (re-attached with all its products, PENDING because its script changed) has
+\* not been rerun yet: the definition is rejected as a duplicate and the new definer FAILS.  With
+\* more jobs the old definer may be rerun first and the build succeeds.
+StaleDefinerConflict(sd) ==
+  \E i \in DOMAIN sd.dup :
+     LET w == sd.dup[i][1]
+         ab == {sd.dup[i][2], sd.dup[i][3]}
+     \* (after the failure the failed plan's products, old definer included, are detached)
+     IN /\ w \in Keys(sd.state)
+        /\ \E c \in ab : /\ sd.state.nodes[w].creator = c
+                          /\ c \in Keys(sd.state) /\ sd.state.nodes[c].sstate = "PENDING"
+                          /\ \E f \in ab \ {c} : f \in Keys(sd.state) /\ sd.state.nodes[f].sstate = "FAILED"
+
 (* C01 *)
 \* F15: the plan stopped declaring a static file that a step still uses; the step is recycled
 \* as SUCCEEDED with a detached input, where a build from scratch leaves it PENDING (rc 16)
@@ -44,11 +58,15 @@ DoneOnWithdrawnInput(db) ==
 IncrEqScratch(e) ==
   IF Success(e.b.rc)
   THEN (IF Success(e.a.rc) THEN CanonDiff(e.a.state, e.a.disk, e.b.state, e.b.disk)
-        ELSE {<<"incremental_build_not_successful", e.a.rc>>})
+        ELSE {<<"incremental_build_not_successful", e.a.rc,
+                IF RcClass(e.a.rc) = "failed" /\ StaleDefinerConflict(e.a)
+                THEN "F17-step-moved-between-plans-rejected-as-duplicate" ELSE "">>})
   ELSE IF RcClass(e.a.rc) # RcClass(e.b.rc)
        THEN {<<"rc_class_differs", <<e.a.rc, e.b.rc>>,
                IF Success(e.a.rc) /\ RcClass(e.b.rc) = "pending" /\ DoneOnWithdrawnInput(e.a.state)
-               THEN "F15-step-done-on-withdrawn-static-input" ELSE "">>}
+               THEN "F15-step-done-on-withdrawn-static-input"
+               ELSE IF RcClass(e.a.rc) = "failed" /\ StaleDefinerConflict(e.a)
+               THEN "F17-step-moved-between-plans-rejected-as-duplicate" ELSE "">>}
   ELSE {}
 
 (* C02 *)
@@ -64,7 +82,10 @@ SameFinal(e) ==
    THEN {<<"success_depends_on_schedule", <<e.a.rc, e.b.rc>>,
            IF (RcClass(e.a.rc) = "pending" /\ Success(e.b.rc) /\ DeferredCreatorCycle(e.a.state))
               \/ (RcClass(e.b.rc) = "pending" /\ Success(e.a.rc) /\ DeferredCreatorCycle(e.b.state))
-           THEN "F8-deferred-creator-cycle-depends-on-schedule" ELSE "">>}
+           THEN "F8-deferred-creator-cycle-depends-on-schedule"
+           ELSE IF (RcClass(e.a.rc) = "failed" /\ Success(e.b.rc) /\ StaleDefinerConflict(e.a))
+                   \/ (RcClass(e.b.rc) = "failed" /\ Success(e.a.rc) /\ StaleDefinerConflict(e.b))
+           THEN "F17-step-moved-between-plans-depends-on-schedule" ELSE "">>}
    ELSE {})
   \cup (IF Success(e.a.rc) /\ Success(e.b.rc)
         THEN Canon2Diff(e.a.state, e.b.state)
